@@ -95,7 +95,7 @@ impl Check for C03 {
     fn cases(&self, tier: Tier) -> u64 {
         match tier {
             Tier::Quick => 1000,
-            Tier::Thorough => 3000,
+            Tier::Thorough => 8000,
         }
     }
     fn langs(&self) -> Vec<&'static str> {
